@@ -123,6 +123,10 @@ def run(ctx):
     bad += ctx.compare('corr:groups', [('groups', [t]) for t in texts], impl)
     bad += ctx.compare('corr:text_lines', [('text_lines', [t]) for t in texts[:20000]], impl)
     fails = ctx.prop('prop:lines', texts, p_lines)
+    # large texts (beyond 4096 and 65536 lines) with dense periodic structure: the executable statement only
+    big = [G.big_text(rng, n, period, phase, term) for n, period, phase, term in
+           [(9000, 2, 0, '\n'), (9000, 2, 1, '\n'), (9000, 3, 0, '\n'), (9000, 3, 1, '\n'), (6000, 2, 0, '\r\n'), (70000, 2, 0, '\n'), (70000, 2, 1, '\n')]]
+    fails += ctx.prop('prop:lines:large', big, p_lines)
     kinds = {}
     for t in texts[:5000]:
         for l in _d822.source_lines(t):
